@@ -63,8 +63,7 @@ class C07(TraceCheck):
         for (h, w) in [(2, 2), (3, 2)]:
             small = [lines_for(w)[k] for k in (0, 1, 3)]
             arrays = [list(c) for k in range(0, h + 2) for c in itertools.product(small, repeat=k)]
-            if tier == "quick":
-                arrays = rng.sample(arrays, min(len(arrays), 14))
+            arrays = rng.sample(arrays, min(len(arrays), 14 if tier == "quick" else 40))
             for pre in range(0, h + 2):
                 for A in arrays:
                     for B in arrays:
@@ -72,7 +71,7 @@ class C07(TraceCheck):
                         yield {"h": h, "w": w, "hide": n % 2, "keep": (n // 2) % 2, "pre": pre,
                                "steps": [{"arr": A, "cp": [max(0, len(A) - 1), 0], "kind": "list"},
                                          {"arr": B, "cp": [0, 0], "kind": "fsarray" if n % 5 == 0 else "list"}]}
-        for k in range(900 if tier == "quick" else 25000):
+        for k in range(900 if tier == "quick" else 12000):
             h, w = rng.randrange(2, 6), rng.randrange(2, 7)
             L = lines_for(w)
             steps = []
